@@ -839,7 +839,7 @@ func genCases(args []string) {
 	rnd := rand.New(rand.NewSource(seed))
 	n := 600
 	if *tier == "thorough" {
-		n = 12000
+		n = 40000
 	}
 	out := bufio.NewWriter(os.Stdout)
 	defer out.Flush()
